@@ -269,6 +269,9 @@ def run_shards(cid, cfg, bins, tier, seed, tag, replay=None, extra_env=None):
         for sh in range(nsh):
             rep = os.path.join(outdir, "%s.%d.json" % (pkg.replace("/", "_"), sh))
             env = goenv()
+            # no asynchronous preemption: with GOMAXPROCS=1 goroutine switches then only happen at blocking operations,
+            # which keeps executions inside a bubble reproducible also on a loaded machine
+            env["GODEBUG"] = (env.get("GODEBUG", "") + ",asyncpreemptoff=1").strip(",")
             env.update(VERIF_TIER=tier, VERIF_SEED=str(seed), VERIF_SHARD="%d/%d" % (sh, nsh), VERIF_OUT=rep,
                        VERIF_BUDGET_S=str(budget), VERIF_REPLAYS=os.path.join(VERIF, "replays"),
                        GOMAXPROCS=str(cfg.get("gomaxprocs", 1)), VERIF_PROP=cid)
